@@ -185,6 +185,11 @@ Print Assumptions C07_guard_same_setting.
      AllKeysChan  closed -> errClosed, else the scan's CID sequence without error
      Roots        the roots -- also on a closed store (it never checks), unless Close closed the backing
      Close        nil, every time
+     Put / PutMany / DeleteBlock   refused with errReadOnly, open or closed; HashOnRead: nil.  These are stutter
+                  steps: like every operation but Close they leave the session state (store, backing) unchanged,
+                  so the answers before and after them are the same
+     Index().GetAll key   only offsets at which the payload has a section, and the offset of every section
+                  carrying the key's multihash (identity sections only if the index in use has identity entries)
    (Has / Get under the same guard as above.) *)
 Theorem C07_history_with_close_partial :
   forall (o : qopts) (ct : container) (ro : option (list bytes)) (bs : list block) (npad : N) (file : bytes)
@@ -210,10 +215,16 @@ Theorem C07_history_with_close_partial :
         exists i, gen_flat dec_header_canon og 0 (payload_np ro bs npad) = Ok i /\ si = Some i
     end ->
     exists s, ro_open dec_header_canon o file si = Ok s /\
-      forall mmap ops, run_spec o (index_wid o ct sup) ro bs false mmap ops
+      forall mmap ops, run_spec o (index_wid o ct sup) ro bs npad false mmap ops
                                 (ss_run dec_header_canon (mkss s false mmap) ops).
 Proof. exact C07_history_full. Qed.
 Print Assumptions C07_history_with_close_partial.
+
+(* every operation but Close leaves the session -- store, index, backing, closed flag -- exactly as it was *)
+Theorem C07_only_close_changes_the_session :
+  forall hdrdec ss op, op <> RClose -> fst (ss_step hdrdec ss op) = ss.
+Proof. exact ss_step_stutter. Qed.
+Print Assumptions C07_only_close_changes_the_session.
 
 (* Index offsets that do not fit int64 (hand-crafted or damaged index): FindCid only ever visits candidate
    offsets below 2^63 -- nothing is read from a wrapped-around position -- and when the walk reaches a
